@@ -32,9 +32,10 @@ const (
 	abortKilled                       // thread killed because the path ended
 	abortDeadlock                     // all threads blocked
 	abortEnd                          // harness asked to end the path normally
+	abortLivelock                     // instruction budget exhausted in a harness that asserts termination (nolivelock)
 )
 
-var abortNames = [...]string{"infeasible", "unsupported", "budget", "solver", "violation", "killed", "deadlock", "end"}
+var abortNames = [...]string{"infeasible", "unsupported", "budget", "solver", "violation", "killed", "deadlock", "end", "livelock"}
 
 type engineAbort struct {
 	kind abortKind
@@ -144,6 +145,9 @@ func (m *Machine) lookupMethod(typ types.Type, meth *types.Func) *ssa.Function {
 func (m *Machine) step(fr *frame) {
 	m.steps++
 	if m.steps > m.cfg.MaxSteps {
+		if m.cfg.NoLivelock {
+			panic(engineAbort{abortLivelock, fmt.Sprintf("no termination within %d instructions; last in %s", m.cfg.MaxSteps, fr.fn)})
+		}
 		panic(engineAbort{abortBudget, fmt.Sprintf("instruction budget %d exhausted in %s", m.cfg.MaxSteps, fr.fn)})
 	}
 }
